@@ -371,6 +371,9 @@ class Arena:
 # running batches
 
 
+_CUSTOM = np.full(64, 0xC3, dtype=np.uint8)
+
+
 def run_batch(module, kerns_sets, policy, param, est, seed, poison, arena, fill, maxsteps=50_000_000):
     """kerns_sets: list of (kernel, input set, a0 index).  -> (result struct, list of A arrays,
     input-unchanged flags)."""
@@ -386,12 +389,17 @@ def run_batch(module, kerns_sets, policy, param, est, seed, poison, arena, fill,
         for key in ("w", "c", "x", "ent", "perm"):
             locs[key] = arena.alloc(iset[key])
         locs["A"] = arena.alloc(iset["A0"][ai])
+        # custom_data: opaque to generated kernels; every other job gets a (read-only, poisoned)
+        # block, the others NULL - the result may depend on neither
+        if j % 2:
+            locs["custom"] = arena.alloc(_CUSTOM)
         handles.append(locs)
         for key, (off, nb) in locs.items():
             if nb:
                 regs.append(Region(arena.base + off, arena.base + off + nb, j, 1 if key == "A" else 0,
                                    1 if key == "A" else 2))
-        descs[j] = JobDesc(kern["fn"], *(arena.base + locs[k][0] for k in ("A", "w", "c", "x", "ent", "perm")), 0)
+        descs[j] = JobDesc(kern["fn"], *(arena.base + locs[k][0] for k in ("A", "w", "c", "x", "ent", "perm")),
+                           (arena.base + locs["custom"][0]) if "custom" in locs else 0)
     arr = (Region * len(regs))(*regs)
     r.sim_set_regions(len(regs), arr)
     res = Result()
@@ -409,6 +417,10 @@ def run_batch(module, kerns_sets, policy, param, est, seed, poison, arena, fill,
         for key in ("w", "c", "x", "ent", "perm"):
             off, nb = locs[key]
             if nb and not np.array_equal(arena.buf[off: off + nb], iset[key].view(np.uint8).reshape(-1)):
+                ok = False
+        if "custom" in locs:
+            off, nb = locs["custom"]
+            if not np.array_equal(arena.buf[off: off + nb], _CUSTOM):
                 ok = False
         unchanged.append(ok)
     return res, outs, unchanged
